@@ -13,8 +13,8 @@ def run(c):
     c.lean(MODULES, THEOREMS, sources=SOURCES)
     model, scs = cj.setup(c)
     rng = c.rng
-    per = 8 if c.thorough else 4
-    cap = 50 if c.thorough else 40
+    per = 8 if c.thorough else 3
+    cap = 50 if c.thorough else 30
     for sc in scs:
         items = cc.link_items(sc)
         g = cj.GenJ(sc, rng.fork(), big=False)
@@ -35,7 +35,9 @@ def run(c):
                 t["explained"] = True   # reported (and listed as known finding) under C05
         rw = cj.Rewriter(sc, rng.fork())
         mp = cj.mask_probe_lines(sc, rw, [x for x in items if x[0]["tlname"] not in skip])
-        for l, a, _ in c.tie("maskprobe:" + sc.sid, sorted(mp), sc.impl, model, prefix=pre):
+        for l, a, mo in c.tie("maskprobe:" + sc.sid, sorted(mp), sc.impl, model, prefix=pre):
+            if a != "panic" and a != mo:
+                c.oracle_fail(l + " [probe answer]", "mask probe: implementation answers %s, model %s" % (a[:100], mo[:100]), l)
             if a == "panic":
                 rw.skip_fields.add(mp[l])
                 c.oracle_fail(l, "documented form 'mask bit set, field omitted = empty value' is accepted by ReadJSON but the value makes WriteJSON panic "
